@@ -63,18 +63,61 @@ ref_count(void)
 
 static nni_id_map m;
 static int        nv;
+/* representation invariant of the open-addressing table (what keeps probing finite and resizing timely):
+ * id_count = number of occupied slots; id_load = sum over live keys of the length of their probe path;
+ * skips[i] = number of live keys whose probe path passes over slot i; every live key is reachable from its
+ * home slot; at least one slot is free
+ * (load >= count and a set resizes first when load >= max_load, so count stays below the capacity) */
+static void
+check_inv(void)
+{
+	if (m.id_entries == NULL) {
+		CHECK(m.id_count == 0 && m.id_load == 0, "Inv: empty map has no table and no load");
+		return;
+	}
+	u32 cap = m.id_cap, cnt = 0, load = 0;
+	CHECK(cap >= 8 && (cap & (cap - 1)) == 0 && cap <= 64, "Inv: capacity is a power of two");
+	u32 passes[64] = { 0 };
+	for (u32 i = 0; i < 64; i++) {
+		if (i >= cap)
+			break;
+		if (m.id_entries[i].val == NULL)
+			continue;
+		cnt++;
+		u32 p = (u32) ID_INDEX((&m), m.id_entries[i].key), steps = 1;
+		for (u32 g = 0; g < 64; g++) {
+			if (p == i)
+				break;
+			passes[p]++;
+			steps++;
+			p = (u32) ID_NEXT((&m), p);
+		}
+		CHECK(p == i, "Inv: every live key is reachable from its home slot");
+		load += steps;
+	}
+	CHECK(m.id_count == cnt, "Inv: id_count equals the number of occupied slots");
+	CHECK(m.id_load == load, "Inv: id_load equals the total probe length of the live keys");
+	for (u32 i = 0; i < 64; i++) {
+		if (i >= cap)
+			break;
+		CHECK(m.id_entries[i].skips == passes[i], "Inv: skip counter equals the number of probe paths crossing the slot");
+	}
+	CHECK(cnt < cap, "Inv: a free slot remains (probing terminates)");
+}
 #define S(k)                                                        \
 	do {                                                        \
 		int rv_ = nni_id_set(&m, (k), &vals[nv]);           \
 		CHECK(rv_ == 0, "history: set succeeds");            \
 		ref_set((k), &vals[nv]);                            \
 		nv++;                                               \
+		check_inv();                                        \
 	} while (0);
 #define R(k)                                                        \
 	do {                                                        \
 		int rv_ = nni_id_remove(&m, (k));                   \
 		CHECK(rv_ == (ref_get(k) ? 0 : NNG_ENOENT), "history: remove result"); \
 		ref_del(k);                                         \
+		check_inv();                                        \
 	} while (0);
 
 #ifndef HIST
@@ -115,6 +158,7 @@ harness(void)
 		int rv  = nni_id_set(&m, K, &vals[15]);
 		CHECK(rv == 0, "set succeeds");
 		CHECK(nni_id_count(&m) == (u32) ref_count() + (was ? 0 : 1), "set: count grows iff the key was new");
+		check_inv();
 		void *g = nni_id_get(&m, K2);
 		CHECK(g == (K2 == K ? (void *) &vals[15] : ref_get(K2)), "set(K,v): get(K2) = v if K2==K else unchanged");
 		if (was)
